@@ -3,6 +3,7 @@ package iscp
 import (
 	"context"
 	"fmt"
+	"sync"
 	"time"
 
 	"github.com/aptpod/iscp-go/log"
@@ -3140,3 +3141,297 @@ func zzC20kRefusedWritesNotCounted() {
 	vf.Reach("end")
 }
 func zzC20kRefusedWritesNotCountedDev1() { zzDeviations = 1; zzC20kRefusedWritesNotCounted() }
+
+// C03.h: a polling consumer of a downstream. Three chunks and two metadata items are queued; the
+// application first reads with a context that is already done (both select arms are ready: either
+// choice is explored) and then reads normally: a read may return an item or the context's error, but
+// no item is ever lost - over all reads every chunk is handed out exactly once, in order and
+// correctly attributed, and every metadata item exactly once, in order.
+func zzC03hPollingConsumer() {
+	b := zzNewBroker()
+	zzServeStreams(b)
+	conn := zzConnect(b)
+	tr := b.last()
+	ctx := context.Background()
+	down, err := conn.OpenDownstream(ctx, []*message.DownstreamFilter{{SourceNodeID: "node"}})
+	vf.Assume(err == nil)
+	vf.Settle()
+	var open *message.DownstreamOpenRequest
+	for _, m := range tr.msgs() {
+		if r, ok := m.(*message.DownstreamOpenRequest); ok {
+			open = r
+		}
+	}
+	vf.Assume(open != nil)
+	alias := open.DesiredStreamIDAlias
+	info := &message.UpstreamInfo{SessionID: "s", SourceNodeID: "node", StreamID: zzStreamID1}
+	idX := &message.DataID{Name: "x", Type: "t"}
+	meta := vf.Choose("metadata.instead.of.chunks", 2) == 1
+	for i := 0; i < 3; i++ {
+		if meta {
+			tr.push(&message.DownstreamMetadata{RequestID: message.RequestID(100 + i), StreamIDAlias: alias, SourceNodeID: "node",
+				Metadata: &message.BaseTime{SessionID: "s", Name: "bt" + string(rune('1'+i)), Priority: uint8(i)}})
+		} else {
+			tr.push(&message.DownstreamChunk{StreamIDAlias: alias, UpstreamOrAlias: info,
+				StreamChunk: &message.StreamChunk{SequenceNumber: uint32(7 + i), DataPointGroups: []*message.DataPointGroup{{DataIDOrAlias: idX,
+					DataPoints: []*message.DataPoint{{ElapsedTime: 1, Payload: []byte{byte(11 * (i + 1))}}}}}}})
+		}
+	}
+	vf.Settle()
+	gone, cancel := context.WithCancel(ctx)
+	cancel()
+	var seqs []uint32
+	var names []string
+	attributed := true
+	read := func(c context.Context) error {
+		if meta {
+			m, err := down.ReadMetadata(c)
+			if err == nil && m != nil {
+				if bt, ok := m.Metadata.(*message.BaseTime); ok {
+					names = append(names, bt.Name)
+				}
+			}
+			return err
+		}
+		ch, err := down.ReadDataPoints(c)
+		if err == nil && ch != nil {
+			seqs = append(seqs, ch.SequenceNumber)
+			k := int(ch.SequenceNumber) - 7
+			if ch.UpstreamInfo == nil || *ch.UpstreamInfo != *info || len(ch.DataPointGroups) != 1 || *ch.DataPointGroups[0].DataID != *idX ||
+				len(ch.DataPointGroups[0].DataPoints) != 1 || ch.DataPointGroups[0].DataPoints[0].Payload[0] != byte(11*(k+1)) {
+				attributed = false
+			}
+		}
+		return err
+	}
+	polls := 1 + vf.Choose("polls.with.done.context", 2)
+	for i := 0; i < polls; i++ {
+		read(gone)
+	}
+	for len(seqs)+len(names) < 3 {
+		var rerr error
+		blocked := vf.Blocked(func() { rerr = read(ctx) })
+		vf.Assert("queued-item-is-still-there", !blocked && rerr == nil)
+		if blocked || rerr != nil {
+			return
+		}
+	}
+	if meta {
+		vf.Assert("each-metadata-once-in-order", len(names) == 3 && names[0] == "bt1" && names[1] == "bt2" && names[2] == "bt3")
+	} else {
+		vf.Assert("each-chunk-once-in-order", len(seqs) == 3 && seqs[0] == 7 && seqs[1] == 8 && seqs[2] == 9)
+		vf.Assert("chunks-correctly-attributed", attributed)
+	}
+	conn.Close(ctx)
+	vf.Reach("end")
+}
+func zzC03hPollingConsumerDev1() { zzDeviations = 1; zzC03hPollingConsumer() }
+
+// C06.h: request ids across retries, whole API: after an outage the broker answers the resume of the
+// upstream and of the downstream with "conflict" (1..2 times) before it accepts, and repeats each
+// conflict response once more after the retried request has arrived (a late duplicate): every
+// request on the redialled connection - connect, the retried resumes, later requests - carries an id
+// distinct from all others on that connection and even; the duplicate is ignored and both streams
+// resume (nobody is handed the stale response).
+func zzC06hRetriedRequestIDs() {
+	b := zzNewBroker()
+	zzServeStreams(b)
+	serve := b.handler
+	conflicts := 1 + vf.Choose("conflict.answers", 2)
+	dupLate := vf.Choose("late.duplicate.of.the.conflict.answer", 2) == 1
+	upLeft, downLeft := conflicts, conflicts
+	var upStale, downStale message.Message
+	b.handler = func(t *zzTr, m message.Message) bool {
+		switch r := m.(type) {
+		case *message.UpstreamResumeRequest:
+			if upLeft > 0 {
+				upLeft--
+				upStale = &message.UpstreamResumeResponse{RequestID: r.RequestID, ResultCode: message.ResultCodeResumeRequestConflict}
+				t.in <- zzEncode(upStale)
+				return true
+			}
+			if dupLate && upStale != nil {
+				t.in <- zzEncode(upStale)
+				upStale = nil
+			}
+		case *message.DownstreamResumeRequest:
+			if downLeft > 0 {
+				downLeft--
+				downStale = &message.DownstreamResumeResponse{RequestID: r.RequestID, ResultCode: message.ResultCodeResumeRequestConflict}
+				t.in <- zzEncode(downStale)
+				return true
+			}
+			if dupLate && downStale != nil {
+				t.in <- zzEncode(downStale)
+				downStale = nil
+			}
+		}
+		return serve(t, m)
+	}
+	ev := &zzEvents{}
+	conn := zzConnect(b)
+	ctx := context.Background()
+	tr1 := b.last()
+	up, err := conn.OpenUpstream(ctx, "session", WithUpstreamFlushPolicyNone(), WithUpstreamResumedEventHandler(ev), WithUpstreamClosedEventHandler(ev))
+	vf.Assume(err == nil)
+	_, err = conn.OpenDownstream(ctx, []*message.DownstreamFilter{{SourceNodeID: "node"}}, WithDownstreamResumedEventHandler(ev), WithDownstreamClosedEventHandler(ev))
+	vf.Assume(err == nil)
+	vf.Settle()
+	tr1.Close()
+	vf.Settle()
+	for i := 0; i < 5; i++ { // keepalive notices; redial; resume exchanges with their retries
+		vf.Advance(11 * time.Second)
+		vf.Settle()
+	}
+	trN := b.last()
+	vf.Assert("recovered-on-one-new-connection", b.dials == 2 && trN != tr1 && conn.state.Is(connStatusConnected))
+	vf.Assert("both-streams-resumed-not-closed", ev.upResumed == 1 && ev.downResumed == 1 && ev.upClosed == 0 && ev.downClosed == 0)
+	// one more request after the retries
+	vf.Assert("upstream-works", up.WriteDataPoints(ctx, &message.DataID{Name: "n", Type: "t"}, &message.DataPoint{ElapsedTime: 2}) == nil && up.Flush(ctx) == nil)
+	merr := conn.SendMetadata(ctx, &message.BaseTime{SessionID: "s", Name: "n"})
+	vf.Assert("later-request-answered", merr == nil)
+	vf.Settle()
+	var ids []uint32
+	resumes := 0
+	for _, m := range trN.msgs() {
+		if _, ok := m.(*message.Ping); ok {
+			continue // (keepalive ids are checked with the others below)
+		}
+		if r, ok := m.(message.Request); ok {
+			ids = append(ids, uint32(r.GetRequestID()))
+		}
+		switch m.(type) {
+		case *message.UpstreamResumeRequest, *message.DownstreamResumeRequest:
+			resumes++
+		}
+	}
+	for _, m := range trN.msgs() {
+		if p, ok := m.(*message.Ping); ok {
+			ids = append(ids, uint32(p.RequestID))
+		}
+	}
+	_ = resumes
+	distinct, even := true, true
+	for i := range ids {
+		if ids[i]%2 != 0 {
+			even = false
+		}
+		for j := 0; j < i; j++ {
+			if ids[i] == ids[j] {
+				distinct = false
+			}
+		}
+	}
+	vf.Assert("request-ids-pairwise-distinct-on-the-connection", distinct)
+	vf.Assert("request-ids-even", even)
+	conn.Close(ctx)
+	vf.Reach("end")
+}
+func zzC06hRetriedRequestIDsDev1() { zzDeviations = 1; zzC06hRetriedRequestIDs() }
+
+// C04.k: two goroutines of the application read the same downstream at the same time; the two chunks
+// they take both carry the same, not yet announced upstream and data id in full form: whatever the
+// interleaving of the two reads, the upstream and the data id each receive exactly one alias, are
+// announced exactly once, and both chunks are acknowledged exactly once.
+func zzC04kConcurrentReaders() {
+	b := zzNewBroker()
+	zzServeStreams(b)
+	conn := zzConnect(b)
+	tr := b.last()
+	ctx := context.Background()
+	down, err := conn.OpenDownstream(ctx, []*message.DownstreamFilter{{SourceNodeID: "node"}}, WithDownstreamAckFlushInterval(50*time.Millisecond))
+	vf.Assume(err == nil)
+	vf.Settle()
+	var alias uint32
+	for _, m := range tr.msgs() {
+		if r, ok := m.(*message.DownstreamOpenRequest); ok {
+			alias = r.DesiredStreamIDAlias
+		}
+	}
+	// The solver picks the interleaving; a native replay can only hit it by trying often, so the
+	// racy step is repeated natively (more rounds, more readers, a fresh upstream and data id each round).
+	rounds, readers := vf.Amplify(1, 300), vf.Amplify(2, 6)
+	seq := uint32(0)
+	for round := 0; round < rounds; round++ {
+		session, name := "s"+string(rune('a'+round%26))+string(rune('a'+round/26)), "x"+string(rune('a'+round%26))+string(rune('a'+round/26))
+		first := seq + 1
+		for i := 0; i < readers; i++ {
+			seq++
+			// (every chunk carries its own copies of the full forms, as decoded frames do)
+			tr.push(&message.DownstreamChunk{StreamIDAlias: alias, UpstreamOrAlias: &message.UpstreamInfo{SessionID: session, SourceNodeID: "node", StreamID: zzStreamID1},
+				StreamChunk: &message.StreamChunk{SequenceNumber: seq,
+					DataPointGroups: []*message.DataPointGroup{{DataIDOrAlias: &message.DataID{Name: name, Type: "t"}, DataPoints: []*message.DataPoint{{ElapsedTime: 1}}}}}})
+		}
+		if round == 0 {
+			vf.Settle()
+		}
+		var wg sync.WaitGroup
+		var mu sync.Mutex
+		sum, errs := uint32(0), 0
+		start := make(chan struct{})
+		for i := 0; i < readers; i++ {
+			wg.Add(1)
+			go func() {
+				defer wg.Done()
+				<-start
+				c, err := down.ReadDataPoints(ctx)
+				mu.Lock()
+				if err != nil || c == nil {
+					errs++
+				} else {
+					sum += c.SequenceNumber
+				}
+				mu.Unlock()
+			}()
+		}
+		close(start)
+		wg.Wait()
+		want := uint32(0)
+		for k := first; k <= seq; k++ {
+			want += k
+		}
+		vf.Assert("every-read-returns-a-chunk-each-chunk-once", errs == 0 && sum == want)
+		st := down.State()
+		nUp, nID := 0, 0
+		for _, v := range st.UpstreamInfos {
+			if v.SessionID == session {
+				nUp++
+			}
+		}
+		for _, v := range st.DataIDAliases {
+			if v.Name == name {
+				nID++
+			}
+		}
+		vf.Assert("one-alias-per-upstream", nUp == 1)
+		vf.Assert("one-alias-per-data-id", nID == 1)
+		if nUp != 1 || nID != 1 {
+			return
+		}
+	}
+	vf.Advance(50 * time.Millisecond)
+	vf.Settle()
+	vf.Advance(50 * time.Millisecond)
+	vf.Settle()
+	acked := map[uint32]int{}
+	upAnnounced, idAnnounced := 0, 0
+	for _, m := range tr.msgs() {
+		if a, ok := m.(*message.DownstreamChunkAck); ok {
+			for _, r := range a.Results {
+				acked[r.SequenceNumberInUpstream]++
+			}
+			upAnnounced += len(a.UpstreamAliases)
+			idAnnounced += len(a.DataIDAliases)
+		}
+	}
+	once := len(acked) == int(seq)
+	for _, n := range acked {
+		once = once && n == 1
+	}
+	vf.Assert("every-consumed-chunk-acked-exactly-once", once)
+	vf.Assert("announced-exactly-once", upAnnounced == rounds && idAnnounced == rounds)
+	conn.Close(ctx)
+	vf.Reach("end")
+}
+func zzC04kConcurrentReadersDev1() { zzDeviations = 1; zzC04kConcurrentReaders() }
+func zzC04kConcurrentReadersDev2() { zzDeviations = 2; zzC04kConcurrentReaders() }
